@@ -275,13 +275,52 @@ func checkC24(r *core.Run, p *core.Program) {
 		a1, a2 := constVal(info, call.Args[1]), constVal(info, call.Args[2])
 		return a1 != nil && a2 != nil && a1.Kind() == constant.String && constant.StringVal(a1) == "_" && constant.StringVal(a2) == ""
 	}
+	// stripsDirect: functions that strip on every path - an unconditional strip call, or an unconditional call of
+	// such a function (a normalising helper built on a `removeDigitSeparators` helper)
 	stripsDirect := map[*types.Func]bool{}
-	for _, f := range funcsOf(pkg) {
-		inspectCalls(info, f.Decl.Body, func(call *ast.CallExpr, c *types.Func) {
-			if isStripCall(call, c) {
-				stripsDirect[f.Obj] = true
+	for round := 0; round < 4; round++ {
+		grew := false
+		for _, f := range funcsOf(pkg) {
+			if stripsDirect[f.Obj] {
+				continue
 			}
-		})
+			var stack []ast.Node
+			ast.Inspect(f.Decl.Body, func(n ast.Node) bool {
+				if n == nil {
+					stack = stack[:len(stack)-1]
+					return true
+				}
+				stack = append(stack, n)
+				call, ok := n.(*ast.CallExpr)
+				if !ok {
+					return true
+				}
+				c := callee(info, call)
+				if !(isStripCall(call, c) || (c != nil && stripsDirect[c])) {
+					return true
+				}
+				uncond := true
+				for i := 1; i < len(stack); i++ {
+					switch stack[i].(type) {
+					case *ast.BlockStmt:
+						switch stack[i-1].(type) {
+						case *ast.IfStmt, *ast.ForStmt, *ast.RangeStmt, *ast.FuncLit:
+							uncond = false
+						}
+					case *ast.CaseClause, *ast.CommClause:
+						uncond = false
+					}
+				}
+				if uncond {
+					stripsDirect[f.Obj] = true
+					grew = true
+				}
+				return true
+			})
+		}
+		if !grew {
+			break
+		}
 	}
 	_ = a
 	// stripPos: earliest position in f where separators are stripped (directly or through a helper that strips)
